@@ -2397,8 +2397,11 @@ class OverloadedSignature:
                     # We set is_overload to False for the last overload
                     # because we can't do union decomposition on the last one:
                     # there's no other overload that could handle the remaining
-                    # union members.
-                    is_overload=i != last,
+                    # union members. The exception is when an earlier overload
+                    # already matched all of the arguments due to Any: then a
+                    # partial match here means that several overloads match
+                    # and we must not pick the earlier overload's return type.
+                    is_overload=i != last or bool(any_rets),
                 )
             errors_per_overload.append(caught_errors)
             if ret.is_error:
